@@ -121,16 +121,107 @@ def element_nodes(fn, b):
                 yield n
 
 
+def canon(n):
+    """Canonical string of an expression (declaration identities, operators,
+    literal values), insensitive to value-preserving wrappers."""
+    n = strip_all(n)
+    if n is None:
+        return "?"
+    k = n.get("k")
+    c = n.get("c", [])
+    if k == "DeclRefExpr":
+        return "d%s" % n.get("d")
+    if k == "MemberExpr":
+        base = strip_all(c[0]) if c else None
+        if base is None or base.get("k") == "CXXThisExpr":
+            return "this.m%s" % n.get("d")
+        return "%s.m%s" % (canon(base), n.get("d"))
+    if k == "CXXThisExpr":
+        return "this"
+    if k in ("IntegerLiteral", "CharacterLiteral", "CXXBoolLiteralExpr"):
+        return "#%s" % n.get("v")
+    if "cv" in n and k not in ("CallExpr", "CXXMemberCallExpr"):
+        return "#%s" % n["cv"]
+    if k == "StringLiteral":
+        return "s%r" % n.get("s")
+    if k in ("UnaryOperator", "BinaryOperator", "CompoundAssignOperator"):
+        return "(%s %s)" % (n.get("op"), " ".join(canon(x) for x in c))
+    if k in CALLISH:
+        return "%s[%s](%s)" % (k[:4], n.get("fn") or n.get("op") or "", ",".join(canon(x) for x in c))
+    if k in ("CStyleCastExpr", "CXXStaticCastExpr", "CXXFunctionalCastExpr", "CXXReinterpretCastExpr"):
+        return "cast<%s>(%s)" % (n.get("ct") or n.get("t"), canon(c[0]) if c else "")
+    return "%s(%s)" % (k, ",".join(canon(x) for x in c))
+
+
+CALLISH = {"CallExpr", "CXXMemberCallExpr", "CXXOperatorCallExpr", "CXXConstructExpr", "CXXTemporaryObjectExpr"}
+
+
+def atomise(cond, outcome):
+    """Split `cond == outcome` into atomic facts.
+    Yields ("T", atom_node, truth) or ("C", lhs, rel, rhs)."""
+    n = strip_all(cond)
+    if n is None:
+        return
+    k = n.get("k")
+    if k == "UnaryOperator" and n.get("op") == "!":
+        yield from atomise(n["c"][0], not outcome)
+        return
+    if k == "CXXOperatorCallExpr" and n.get("op") == "!" and len(n["c"]) == 2:
+        yield from atomise(n["c"][1], not outcome)
+        return
+    if k == "BinaryOperator" and n.get("op") == "&&":
+        if outcome:
+            yield from atomise(n["c"][0], True)
+            yield from atomise(n["c"][1], True)
+        return
+    if k == "BinaryOperator" and n.get("op") == "||":
+        if not outcome:
+            yield from atomise(n["c"][0], False)
+            yield from atomise(n["c"][1], False)
+        return
+    cf = cmp_fact(n, outcome)
+    if cf:
+        l, rel, r = cf
+        # comparisons against null / nullopt are truthiness facts
+        atom, pos = bool_atom(n)
+        if atom is not n:
+            yield ("T", atom, pos if outcome else (not pos))
+            return
+        yield ("C", l, rel, r)
+        return
+    atom, pos = bool_atom(n)
+    if atom is not None:
+        yield ("T", atom, pos if outcome else (not pos))
+
+
+def fact_key(f):
+    if f[0] == "T":
+        return ("T", canon(f[1]), f[2])
+    if f[0] == "C":
+        a, rel, b = canon(f[1]), f[2], canon(f[3])
+        if b < a:
+            a, b, rel = b, a, SWAP[rel]
+        return ("C", a, rel, b)
+    return f
+
+
 class Guards:
-    """Branch facts (condition node id, outcome) that hold on every path
-    reaching a program point.  outcome is True/False for two-way branches and
-    ('case', v) / ('default',) for switch edges."""
+    """Facts that hold on every path reaching a program point, derived from
+    branch edges and normalised so that different tests of the same thing
+    meet at joins:
+       ("T", canon(expr), bool)            expr is truthy / engaged / non-null
+       ("C", canon(l), rel, canon(r))      l rel r
+       ("S", canon(expr), value|'default') switch edge
+    A fact is killed when a variable it mentions is written."""
 
     def __init__(self, fn):
         self.fn = fn
         cfg = fn.cfg
         self.cfg = cfg
         reach = cfg.reachable()
+        self.rep = {}       # fact key -> representative raw fact (with nodes)
+        self.vars = {}      # fact key -> decl ids mentioned
+        self.shape = {}     # fact key -> decl ids mentioned only through size()-like calls
         self.edge_facts = {}
         for bid in reach:
             b = cfg.blocks[bid]
@@ -139,42 +230,34 @@ class Guards:
             tk = b.get("termk")
             if cond is None or tk is None:
                 continue
+            cn = fn.nodes.get(cond)
+            if cn is None:
+                continue
             if tk == "SwitchStmt":
-                labels = {}
                 for s in ss:
                     if s < 0:
                         continue
                     lb = cfg.blocks[s]
                     if lb.get("labelk") == "CaseStmt" and lb.get("label") is not None:
-                        cn = fn.nodes.get(lb["label"])
-                        if cn is not None and "v" in cn and "v2" not in cn:
-                            labels[s] = ("case", cn["v"])
+                        ln = fn.nodes.get(lb["label"])
+                        if ln is not None and "v" in ln and "v2" not in ln:
+                            self._add_edge(bid, s, [("S", cn, ln["v"])])
                     elif lb.get("labelk") == "DefaultStmt":
-                        labels[s] = ("default",)
-                for s, lab in labels.items():
-                    # a case block can also be entered by fall-through; the fact
-                    # is attached to the edge only
-                    self.edge_facts[(bid, s)] = {(cond, lab)}
+                        self._add_edge(bid, s, [("S", cn, "default")])
             elif len(ss) == 2 and ss[0] != ss[1]:
                 if ss[0] >= 0:
-                    self.edge_facts[(bid, ss[0])] = {(cond, True)}
+                    self._add_edge(bid, ss[0], list(atomise(cn, True)))
                 if ss[1] >= 0:
-                    self.edge_facts[(bid, ss[1])] = {(cond, False)}
-        # kill sets per block
-        self.fact_vars = {}
+                    self._add_edge(bid, ss[1], list(atomise(cn, False)))
         self.block_writes = {}
         for bid in reach:
             w = set()
             for n in element_nodes(fn, bid):
                 w |= written_decls(n)
             self.block_writes[bid] = w
-        self.fact_shape = {}
-        # forward must-analysis
         TOP = None
         IN = {b: TOP for b in reach}
         OUT = {b: TOP for b in reach}
-        IN[cfg.entry] = frozenset()
-        work = [cfg.entry]
         order = sorted(reach, reverse=True)
         changed = True
         while changed:
@@ -198,25 +281,35 @@ class Guards:
                     changed = True
         self.IN, self.OUT = IN, OUT
 
-    def _vars(self, fact):
-        c = fact[0]
-        v = self.fact_vars.get(c)
-        if v is None:
-            n = self.fn.nodes.get(c)
-            v = decl_ids(n) if n is not None else set()
-            self.fact_vars[c] = v
-        return v
+    def _add_edge(self, p, s, raw_facts):
+        ks = set()
+        for f in raw_facts:
+            if f[0] == "S":
+                k = ("S", canon(f[1]), f[2])
+                nodes = [f[1]]
+            else:
+                k = fact_key(f)
+                nodes = [f[1]] if f[0] == "T" else [f[1], f[3]]
+            if k not in self.rep:
+                self.rep[k] = f
+                vs, sh = set(), None
+                for n in nodes:
+                    vs |= decl_ids(n)
+                    so = shape_only_decls(n)
+                    sh = so if sh is None else (sh | so)
+                # a decl is shape-only for the fact if every mention is shape-only in its node
+                self.vars[k] = vs
+                self.shape[k] = set(d for d in (sh or set())
+                                    if all(d not in decl_ids(n) or d in shape_only_decls(n) for n in nodes))
+            ks.add(k)
+        if ks:
+            self.edge_facts.setdefault((p, s), set()).update(ks)
 
-    def _killed(self, fact, writes):
+    def _killed(self, k, writes):
         if not writes:
             return False
-        vs = self._vars(fact)
-        c = fact[0]
-        sh = self.fact_shape.get(c)
-        if sh is None:
-            n = self.fn.nodes.get(c)
-            sh = shape_only_decls(n) if n is not None else set()
-            self.fact_shape[c] = sh
+        vs = self.vars.get(k, ())
+        sh = self.shape.get(k, ())
         for d, elem in writes:
             if d in vs and not (elem and d in sh):
                 return True
@@ -235,36 +328,66 @@ class Guards:
         for a in self.fn.ancestors(node):
             if a["i"] in w:
                 return w[a["i"]]
-        # fall back to any descendant
         for d in walk(node):
             if d["i"] in w:
                 return w[d["i"]]
         return None
 
     def at(self, node):
-        """Facts holding whenever `node` is evaluated.  None = unreachable."""
+        """Fact keys holding whenever `node` is evaluated.  None = unreachable."""
         pos = self.position(node)
         if pos is None:
             return None
         b, idx = pos
         if b not in self.IN or self.IN[b] is None:
             return None
-        facts_ = set(self.IN[b])
         written = set()
         for e in self.cfg.blocks[b]["e"][:idx]:
             if isinstance(e, int):
                 n = self.fn.nodes.get(e)
                 if n is not None:
                     written |= written_decls(n)
-        return set(f for f in facts_ if not self._killed(f, written))
+        return set(f for f in self.IN[b] if not self._killed(f, written))
 
-    def at_block_end(self, b):
+    def truthy(self, node, expr, want=True):
+        fs = self.at(node)
+        if fs is None:
+            return None
+        return ("T", canon(expr), want) in fs
+
+    def cmps(self, node):
+        """[(lhs_node, rel, rhs_node)] comparison facts at node, both orientations."""
+        fs = self.at(node)
+        if fs is None:
+            return None
+        out = []
+        for k in fs:
+            if k[0] != "C":
+                continue
+            f = self.rep[k]
+            out.append((f[1], f[2], f[3]))
+            out.append((f[3], SWAP[f[2]], f[1]))
+        return out
+
+    def truths(self, node):
+        fs = self.at(node)
+        if fs is None:
+            return None
+        return [(self.rep[k][1], k[2]) for k in fs if k[0] == "T"]
+
+    def switch_facts(self, node):
+        fs = self.at(node)
+        if fs is None:
+            return None
+        return [(self.rep[k][1], k[2]) for k in fs if k[0] == "S"]
+
+    def out_facts(self, b):
         if b not in self.OUT or self.OUT[b] is None:
             return None
         return set(self.OUT[b])
 
-    def on_edge(self, p, s):
-        o = self.at_block_end(p)
+    def edge(self, p, s):
+        o = self.out_facts(p)
         if o is None:
             return None
         return o | self.edge_facts.get((p, s), set())
